@@ -15,9 +15,11 @@ RULE = ("transactions from the grammar (segwit on/off, 1..3 inputs/outputs, sequ
         "compared inside block_deser. non-trivial = segwit or non-final sequence or non-empty trailing data.")
 ASSUMPTIONS = ["vf/ref/tx_ref.py legacy/witness serialisation defines txid/wtxid (BIP141)"]
 OBLIGATIONS = {
+    "history_sequences": "operation sequences (non-initial process states) explored",
     "segwit_nonfinal_sequence": "a segwit transaction with a sequence other than ffffffff",
     "trailing_byte_inside_tx": "a trailing byte that also occurs inside the transaction",
     "trailing_copy": "the same transaction appended after itself", "in_block": "ids compared inside block_deser",
+    "null_prevout": "a transaction whose first input spends the null outpoint (coinbase shape)",
 }
 BOUND = {"quick": "deviation <= 2", "thorough": "deviation <= 4"}
 
@@ -29,6 +31,7 @@ def dims(base):
         "spk0": [25, 0, 1, 253], "spkrest": [22, 0],
         "wit0": [[72, 33], [], [1], [253]], "witrest": [[1], [], [2, 0]],
         "version": [1, 2, 2 ** 32 - 1, 0, 2 ** 31], "locktime": [0, 499999999, 2 ** 32 - 1, 1],
+        "prevout0": ["normal", "null"],
     }
     if base == "segwit":
         d["segwit"] = [True, False]
@@ -102,20 +105,57 @@ def chk_block(case):
     return out
 
 
-CASES = {"ids": chk_ids, "block": chk_block}
+def chk_poke(case):
+    """stir the parser's state: a parse that fails part-way, or a direct call of a sub-parser (no oracle of its own)"""
+    import bits.tx as btx
+    T = make_tx(case["seed"], dict(case["a"]), "c04")
+    raw = T.ser()
+    if case["what"] == "truncated":
+        for cut in (len(raw) - 3, len(raw) // 2, 45):
+            call(btx.tx_deser, raw[:cut])
+    elif case["what"] == "subparsers":
+        call(btx.txin_deser, raw[4 + (2 if T.wit is not None else 0) + 1:])
+        call(btx.txout_deser, raw[-40:])
+    return []
+
+
+CASES = {"ids": chk_ids, "block": chk_block, "poke": chk_poke}
 
 
 def run_case(kind, case):
+    if kind == "seq":
+        from vf import seqexplore
+        return seqexplore.replay(run_case, case)
     return CASES[kind](case)
+
+
+def seq_ops(job):
+    seed = job["seed"]
+    base = {"segwit": True, "n_in": 2, "n_out": 1, "seq0": "fffffffe", "seqrest": "ffffffff", "ss0": 1, "ssrest": 1, "spk0": 25, "spkrest": 22,
+            "wit0": [72, 33], "witrest": [1], "version": 2, "locktime": 7, "prevout0": "normal"}
+    leg = dict(base, segwit=False, n_in=1)
+    cb = dict(base, prevout0="null", n_in=1, wit0=[32])
+    ops = []
+    for a, nm in ((base, "segwit"), (leg, "legacy"), (cb, "coinbase-like segwit")):
+        ops.append(("ids", {"seed": seed, "a": a, "trailing": "", "tname": nm}))
+        ops.append(("ids", {"seed": seed, "a": a, "trailing": "00ff", "tname": nm + "+trailing"}))
+    ops.append(("poke", {"seed": seed, "a": base, "what": "truncated"}))
+    ops.append(("poke", {"seed": seed, "a": base, "what": "subparsers"}))
+    ops.append(("block", {"seed": seed, "as": [cb, base, leg]}))
+    return ops
 
 
 def jobs(tier, seed):
     nsh = 16 if tier == "quick" else 48
+    from vf.runner import seq_jobs
     return [{"name": f"ids/{sh}", "part": "ids", "shard": [sh, nsh], "weight": 5} for sh in range(nsh)] + \
-        [{"name": "block", "part": "block", "weight": 2}]
+        [{"name": "block", "part": "block", "weight": 2}] + seq_jobs(3, weight=3)
 
 
 def run_job(job):
+    if job["part"] == "seq":
+        from vf.runner import run_seq_job
+        return run_seq_job(job, seq_ops(job), run_case)
     acc = Acc(job)
     seed = job["seed"]
     d = 2 if job["tier"] == "quick" else 4
@@ -147,6 +187,8 @@ def run_job(job):
                     acc.ob("trailing_byte_inside_tx")
                 if tname == "copy":
                     acc.ob("trailing_copy")
+                if a.get("prevout0") == "null":
+                    acc.ob("null_prevout")
                 acc.check("ids", {"seed": seed, "a": a, "trailing": tr.hex(), "tname": tname}, chk_ids)
             if acc.evaluations % 3000 < 40:
                 acc.sample({"a": {k: v for k, v in a.items() if k in ("segwit", "n_in", "seq0", "wit0")}, "bytes": len(raw)})
